@@ -95,6 +95,8 @@ var lcReasons = map[string][]string{
 	// (on polling the data request that carries the message is still in flight: the server aborts it, and its
 	// connection ending may be reported like a dropped request, as for a close from outside: section 10)
 	"appCloseInListener": {"forced close", "transport error"},
+	// ... or from inside its listener of the 'flush' event of one of its own Sends
+	"appCloseInFlushListener": {"forced close"},
 	// a write of the server fails (broken pipe / the peer stopped the receiving side of its stream) before its
 	// reader has noticed anything
 	"writeFail": {"transport error", "transport close"},
@@ -501,14 +503,26 @@ func (lw *lcWorld) causeFn(s *lcSess, cause string) func() {
 			}
 			s.sr.Sock.Close(false)
 		}
-	case "appCloseInListener":
-		ev := []string{"packet", "data"}[len(s.sr.Events)%2]
+	case "appCloseInListener", "appCloseInFlushListener":
+		ev := []string{"packet", "data", "flush"}[len(s.sr.Events)%3]
+		if cause == "appCloseInFlushListener" {
+			ev = "flush"
+		}
+		if ev == "flush" && s.pc != nil && s.pc.Poll == nil {
+			ev = "packet"
+		}
 		return func() {
 			lw.stats["close-inside-a-"+ev+"-listener"] = true
 			s.sr.Sock.Once(types.EventName(ev), func(...any) {
 				s.strictAfterClose = true
 				s.sr.Sock.Close(true)
 			})
+			if ev == "flush" {
+				// the hand-off of an application Send: its flush listener closes the session; what the library
+				// still had to do for that hand-off (the drain events, the callback) comes after the close
+				lw.w.AppSend(s.sr, msgT("its flush listener closes the session"), nil, true, 0)
+				return
+			}
 			s.sendPkt(msgT("makes the listener close the session"))
 		}
 	case "appCloseBuffered":
@@ -944,7 +958,7 @@ func runLC(steps []lcStep) (*lcWorld, bubbleResult) {
 				if st.Cause == "overlap" || st.Cause == "appCloseNoPoll" || st.Cause2 == "appCloseNoPoll" {
 					break
 				}
-				if st.Cause == "appCloseInListener" || st.Cause2 == "appCloseInListener" {
+				if st.Cause == "appCloseInListener" || st.Cause2 == "appCloseInListener" || st.Cause == "appCloseInFlushListener" || st.Cause2 == "appCloseInFlushListener" {
 					// (needs a client message of its own: two client actions of one client at one instant are a
 					// matter of the client, not of the server)
 					break
@@ -1484,9 +1498,11 @@ func TestC04Ids(t *testing.T) {
 }
 
 // TestC03Findings: deterministic demonstrations of the three repaired lifecycle defects.
+const sigDrainAfterClose = "drain-events-after-a-flush-listener-closed-the-session"
+
 func TestC03Findings(t *testing.T) {
 	curT = t
-	col := NewCollector("TestC03Findings", "deterministic gated histories: (a) heartbeat in the wrong direction parked inside OnClose's window + Close(true); (b) Close(false) parked inside its window + connection drop; (c) connection drop between session construction and registration (websocket and webtransport); oracles of TestC03Lifecycle / TestC04Registry. every case is non-trivial").Use(t)
+	col := NewCollector("TestC03Findings", "deterministic gated histories: (a) heartbeat in the wrong direction parked inside OnClose's window + Close(true); (b) Close(false) parked inside its window + connection drop; (c) connection drop between session construction and registration (websocket and webtransport); (d) Close(true) from inside a listener of the flush event of an application Send; oracles of TestC03Lifecycle / TestC04Registry. every case is non-trivial").Use(t)
 	type demo struct {
 		sig   string
 		prop  string
@@ -1499,6 +1515,9 @@ func TestC03Findings(t *testing.T) {
 		{sigCloseBackward, "C03", []lcStep{{Kind: "hs", Sess: 0, Car: "webtransport", Rev: 4}, {Kind: "gateClose", Sess: 0, Cause: "wrongHeartbeat"}}},
 		{sigDiedInHS, "C03", []lcStep{{Kind: "gateHandshake", Sess: 0, Car: "websocket", Rev: 4, Cause: "drop"}}},
 		{sigDiedInHS, "C04", []lcStep{{Kind: "gateHandshake", Sess: 0, Car: "webtransport", Rev: 4, Cause: "drop"}, {Kind: "advance", D: time.Second}}},
+		{sigDrainAfterClose, "C03", []lcStep{{Kind: "hs", Sess: 0, Car: "websocket", Rev: 4}, {Kind: "cause", Sess: 0, Cause: "appCloseInFlushListener"}}},
+		{sigDrainAfterClose, "C03", []lcStep{{Kind: "hs", Sess: 0, Car: "polling", Rev: 3}, {Kind: "traffic", Sess: 0}, {Kind: "cause", Sess: 0, Cause: "appCloseInFlushListener"}}},
+		{sigDrainAfterClose, "C03", []lcStep{{Kind: "hs", Sess: 0, Car: "webtransport", Rev: 4}, {Kind: "cause", Sess: 0, Cause: "appCloseInFlushListener"}}},
 	} {
 		lw, res := runLC(d.steps)
 		res.rethrow()
